@@ -68,7 +68,8 @@ def run(prop, a, seed, t0):
     keys = prop.keys(W)
     fn_keys = [k for k in keys if k in W.contracts]
     lemma_keys = [k for k in keys if k in W.lemmas]
-    reports = generate_all(W, fn_keys + lemma_keys)
+    an_keys = [k for k in keys if k in W.analyses]
+    reports = generate_all(W, fn_keys + lemma_keys + an_keys)
     discharge(reports)
     lock = load_json(os.path.join(ROOT, "obligations.lock"), {})
     ledger = set(lock.get(prop.id, []))
